@@ -398,4 +398,336 @@ theorem DataWrite.seq {w1 w2 : Nat → M Unit} {g1 g2 : List (Name × Value) →
   refine ⟨ok2, ?_⟩
   rw [c2, c1, List.set_set]
 
+
+/-! ## the pure helpers of C04 do not look into a context object -/
+
+/-- `f` does not depend on the chain of a context object -/
+def Obliv (f : Obj → β) : Prop := ∀ C C', f (.ctx C) = f (.ctx C')
+
+theorem erase_rel {s : St} {o : ObjS} {o' : Obj} (h : ObjRel s o o') {f : Obj → β} (hf : Obliv f) : f o.erase = f o' := by
+  cases o with
+  | data d => simp only [ObjRel] at h; rw [← h.1]; rfl
+  | ctx c =>
+    cases o' with
+    | ctx C => exact hf _ _
+    | val v => simp [ObjRel] at h
+    | lazy a b => simp [ObjRel] at h
+    | ordered a b => simp [ObjRel] at h
+
+theorem obliv_toV : Obliv toV := fun _ _ => rfl
+theorem obliv_toIter : Obliv toIter := fun _ _ => rfl
+theorem obliv_truthy : Obliv truthyObj := fun _ _ => rfl
+theorem obliv_isLazy : Obliv isLazy := fun _ _ => rfl
+theorem obliv_listArg : Obliv listArg := fun _ _ => rfl
+theorem obliv_unop (op : UnOp) : Obliv (unop op) := fun _ _ => by cases op <;> rfl
+theorem obliv_indexer (vs : VL) : Obliv (fun o => indexer o vs) := fun _ _ => by
+  cases vs with
+  | nil => rfl
+  | cons a r => cases r with
+    | nil => rfl
+    | cons b r2 => cases r2 <;> rfl
+
+theorem toVS_rel {s : St} {o : ObjS} {o' : Obj} (h : ObjRel s o o') : toVS o = toV o' := erase_rel h obliv_toV
+theorem toIterS_rel {s : St} {o : ObjS} {o' : Obj} (h : ObjRel s o o') : toIterS o = toIter o' := erase_rel h obliv_toIter
+theorem truthyS_rel {s : St} {o : ObjS} {o' : Obj} (h : ObjRel s o o') : truthyS o = truthyObj o' := erase_rel h obliv_truthy
+theorem isLazyS_rel {s : St} {o : ObjS} {o' : Obj} (h : ObjRel s o o') : isLazyS o = isLazy o' := erase_rel h obliv_isLazy
+
+theorem ObjRel.mono {s0 s : St} {o : ObjS} {o' : Obj} (h : ObjRel s0 o o') (hle : Ext s0 s) (hwf : WF s.cells) :
+    ObjRel s o o' := by
+  cases o with
+  | data d => exact h
+  | ctx c =>
+    cases o' with
+    | ctx C => exact CtxRel.mono (s0 := s0) h hle hwf
+    | val v => simp [ObjRel] at h
+    | lazy a b => simp [ObjRel] at h
+    | ordered a b => simp [ObjRel] at h
+
+theorem ObjRel.data {s : St} {o : Obj} (h : ∀ C, o ≠ .ctx C) : ObjRel s (.data o) o := ⟨rfl, h⟩
+
+/-! ## the knot -/
+
+/-- the store-passing knot simulates the reference knot on related contexts -/
+def SimEv (evS : EvS) (ev : Ev) : Prop :=
+  ∀ (s : St) (c : Nat) (C : Ctx) (e : Expr), WF s.cells → CtxRel s c C → Post ObjRel s (evS c e s) (ev C e)
+
+/-- a value-valued step: bind a store computation against the reference's, results equal -/
+theorem post_bind_eq {Q2 : St → γ → δ → Prop} {s : St} {m : M α} {f : α → M γ} {r : R α} {g : α → R δ}
+    (h1 : Post QEq s (m s) r)
+    (h2 : ∀ s1 a, WF s1.cells → Ext s s1 → Post Q2 s1 (f a s1) (g a)) :
+    Post Q2 s ((m >>= f) s) (r >>= g) :=
+  post_bind h1 (fun s1 a b hwf hle hq => by cases hq; exact h2 s1 a hwf hle)
+
+theorem sim_evalList {evS : EvS} {ev : Ev} (hev : SimEv evS ev) (c : Nat) (C : Ctx) :
+    ∀ (es : List Expr) (s : St), WF s.cells → CtxRel s c C → Post QEq s (evalListS evS c es s) (evalList ev C es)
+  | [], s, hwf, _ => post_pure hwf rfl
+  | e :: es, s, hwf, hc => by
+    unfold EvalStore.evalListS Eval.evalList
+    refine post_bind (hev s c C e hwf hc) (fun s1 o o' hwf1 hle1 ho => ?_)
+    rw [toVS_rel ho]
+    refine post_bind_eq (post_liftR _ hwf1) (fun s2 v hwf2 hle2 => ?_)
+    refine post_bind_eq (sim_evalList hev c C es s2 hwf2 (hc.mono (hle1.trans hle2) hwf2)) (fun s3 vs hwf3 _ => ?_)
+    exact post_pure hwf3 rfl
+
+theorem sim_evalPairs {evS : EvS} {ev : Ev} (hev : SimEv evS ev) (c : Nat) (C : Ctx) :
+    ∀ (ps : List (Expr × Expr)) (s : St), WF s.cells → CtxRel s c C →
+      Post QEq s (evalPairsS evS c ps s) (evalPairs ev C ps)
+  | [], s, hwf, _ => post_pure hwf rfl
+  | (k, v) :: r, s, hwf, hc => by
+    unfold EvalStore.evalPairsS Eval.evalPairs
+    refine post_bind (hev s c C k hwf hc) (fun s1 o o' hwf1 hle1 ho => ?_)
+    rw [toVS_rel ho]
+    refine post_bind_eq (post_liftR _ hwf1) (fun s2 kv hwf2 hle2 => ?_)
+    have hc2 := hc.mono (hle1.trans hle2) hwf2
+    refine post_bind (hev s2 c C v hwf2 hc2) (fun s3 o2 o2' hwf3 hle3 ho2 => ?_)
+    rw [toVS_rel ho2]
+    refine post_bind_eq (post_liftR _ hwf3) (fun s4 vv hwf4 hle4 => ?_)
+    refine post_bind_eq (sim_evalPairs hev c C r s4 hwf4 (hc2.mono (hle3.trans hle4) hwf4)) (fun s5 rest hwf5 _ => ?_)
+    exact post_pure hwf5 rfl
+
+/-- lists of objects, related element by element -/
+def ObjsRel (s : St) : List ObjS → List Obj → Prop
+  | [], [] => True
+  | a :: r, b :: r' => ObjRel s a b ∧ ObjsRel s r r'
+  | _, _ => False
+
+theorem ObjsRel.mono {s0 s : St} (hle : Ext s0 s) (hwf : WF s.cells) : ∀ {a : List ObjS} {b : List Obj},
+    ObjsRel s0 a b → ObjsRel s a b
+  | [], [], _ => trivial
+  | _ :: _, _ :: _, h => ⟨h.1.mono hle hwf, ObjsRel.mono hle hwf h.2⟩
+  | [], _ :: _, h => h.elim
+  | _ :: _, [], h => h.elim
+
+theorem sim_evalObjs {evS : EvS} {ev : Ev} (hev : SimEv evS ev) (c : Nat) (C : Ctx) :
+    ∀ (es : List Expr) (s : St), WF s.cells → CtxRel s c C → Post ObjsRel s (evalObjsS evS c es s) (evalObjs ev C es)
+  | [], s, hwf, _ => post_pure hwf trivial
+  | e :: es, s, hwf, hc => by
+    unfold EvalStore.evalObjsS Eval.evalObjs
+    refine post_bind (hev s c C e hwf hc) (fun s1 o o' hwf1 hle1 ho => ?_)
+    refine post_bind (sim_evalObjs hev c C es s1 hwf1 (hc.mono hle1 hwf1)) (fun s2 os os' hwf2 hle2 hos => ?_)
+    exact post_pure hwf2 ⟨ho.mono hle2 hwf2, hos⟩
+
+
+/-! ## `_publish_params` builds the frame of a lambda application -/
+
+theorem aset_fresh {α : Type} (k : Name) (v : α) : ∀ (l : List (Name × α)), (∀ p ∈ l, p.1 ≠ k) → aset k v l = l ++ [(k, v)]
+  | [], _ => rfl
+  | (k', v') :: r, h => by
+    have hk : k' ≠ k := h (k', v') (by simp)
+    simp only [aset, beq_iff_eq, hk, if_false, List.cons_append]
+    rw [aset_fresh k v r (fun p hp => h p (by simp [hp]))]
+
+theorem bindNamed_bindPos : ∀ (vs : VL) (i : Nat) (acc : List (Name × Value)),
+    (∀ p ∈ acc, ∀ j, i ≤ j → p.1 ≠ Yaql.Props.C04.argName j) → bindNamed acc (bindPos i vs) = acc ++ bindPos i vs
+  | [], _, acc, _ => by simp [bindPos, bindNamed]
+  | v :: vs, i, acc, h => by
+    simp only [bindPos, bindNamed]
+    have hn : normName ('$' :: Nat.toDigits 10 i) = '$' :: Nat.toDigits 10 i :=
+      Yaql.Props.C04.normName_argName i
+    rw [hn, aset_fresh ('$' :: Nat.toDigits 10 i) v acc (fun p hp => h p hp i (Nat.le_refl _))]
+    rw [bindNamed_bindPos vs (i + 1) _ (by
+      intro p hp j hj
+      rcases List.mem_append.mp hp with hp | hp
+      · exact h p hp j (by omega)
+      · simp only [List.mem_singleton] at hp
+        subst hp
+        intro heq
+        have := Yaql.Props.C04.argName_inj (a := i) (b := j) heq
+        omega)]
+    simp
+
+theorem bindNamed_nil_bindPos (vs : VL) (i : Nat) : bindNamed [] (bindPos i vs) = bindPos i vs := by
+  simpa using bindNamed_bindPos vs i [] (fun p hp => by cases hp)
+
+theorem sim_applyLam {evS : EvS} {ev : Ev} (hev : SimEv evS ev) (D : Nat) (D' : Ctx) (body : Expr) (args : VL)
+    (s : St) (hwf : WF s.cells) (hD : CtxRel s D D') :
+    Post ObjRel s (applyLamS evS D body args s) (applyLam ev D' body args) := by
+  unfold EvalStore.applyLamS Eval.applyLam
+  refine post_child_data (DataWrite.publishPos 1 args) hwf hD (fun s1 X hwf1 _ hX => ?_)
+  have : argFrame args [] = { vars := bindNamed [] (bindPos 1 args) } := by
+    simp [argFrame, bindNamed, bindNamed_nil_bindPos]
+  rw [this]
+  exact hev s1 X _ body hwf1 hX
+
+theorem sim_lamV {evS : EvS} {ev : Ev} (hev : SimEv evS ev) (D : Nat) (D' : Ctx) (body : Expr) (args : VL)
+    (s : St) (hwf : WF s.cells) (hD : CtxRel s D D') :
+    Post QEq s (lamVS evS D body args s) (lamV ev D' body args) := by
+  unfold EvalStore.lamVS Eval.lamV
+  refine post_bind (sim_applyLam hev D D' body args s hwf hD) (fun s1 o o' hwf1 _ ho => ?_)
+  rw [toVS_rel ho]
+  exact post_liftR _ hwf1
+
+theorem sim_lamB {evS : EvS} {ev : Ev} (hev : SimEv evS ev) (D : Nat) (D' : Ctx) (body : Expr) (args : VL)
+    (s : St) (hwf : WF s.cells) (hD : CtxRel s D D') :
+    Post QEq s (lamBS evS D body args s) (lamB ev D' body args) := by
+  unfold EvalStore.lamBS Eval.lamB
+  refine post_bind (sim_applyLam hev D D' body args s hwf hD) (fun s1 o o' hwf1 _ ho => ?_)
+  rw [truthyS_rel ho]
+  exact post_pure hwf1 rfl
+
+theorem sim_lamMany {evS : EvS} {ev : Ev} (hev : SimEv evS ev) (D : Nat) (D' : Ctx) (body : Expr) (x : Value)
+    (s : St) (hwf : WF s.cells) (hD : CtxRel s D D') :
+    Post QEq s (lamManyS evS D body x s) (lamMany ev D' body x) := by
+  unfold EvalStore.lamManyS Eval.lamMany
+  refine post_bind (sim_applyLam hev D D' body [x] s hwf hD) (fun s1 o o' hwf1 _ ho => ?_)
+  cases o with
+  | ctx c =>
+    cases o' with
+    | ctx C => exact post_fail _ hwf1
+    | val v => simp [ObjRel] at ho
+    | lazy a b => simp [ObjRel] at ho
+    | ordered a b => simp [ObjRel] at ho
+  | data d =>
+    obtain ⟨rfl, hn⟩ := ho
+    cases d with
+    | ctx C => exact absurd rfl (hn C)
+    | val v =>
+      simp only
+      cases toIter (.val v) with
+      | some it => exact post_pure hwf1 rfl
+      | none => exact post_bind_eq (post_liftR _ hwf1) (fun s2 v hwf2 _ => post_pure hwf2 rfl)
+    | lazy a b =>
+      simp only
+      cases toIter (.lazy a b) with
+      | some it => exact post_pure hwf1 rfl
+      | none => exact post_bind_eq (post_liftR _ hwf1) (fun s2 v hwf2 _ => post_pure hwf2 rfl)
+    | ordered a b =>
+      simp only
+      cases toIter (.ordered a b) with
+      | some it => exact post_pure hwf1 rfl
+      | none => exact post_bind_eq (post_liftR _ hwf1) (fun s2 v hwf2 _ => post_pure hwf2 rfl)
+
+
+/-! ## generators -/
+
+theorem post_capture {s : St} {m : M α} {r : R α} (h : Post QEq s (m s) r) :
+    Post QEq s (captureS m s) (capture r) := by
+  obtain ⟨hwf, hle, hr⟩ := h
+  unfold EvalStore.captureS Eval.capture
+  cases hm : m s with
+  | mk x s1 =>
+    rw [hm] at hwf hle hr
+    cases x with
+    | ok a =>
+      cases r with
+      | ok b => simp only [ResRel, QEq] at hr; subst hr; exact ⟨hwf, hle, rfl⟩
+      | error e => exact absurd hr (by simp [ResRel])
+    | error e =>
+      cases r with
+      | ok b => exact absurd hr (by simp [ResRel])
+      | error e' =>
+        simp only [ResRel] at hr; subst hr
+        cases e <;> exact ⟨hwf, hle, rfl⟩
+
+/-- the callback agrees with the reference's at every later state -/
+def SimFn (s0 : St) (f : α → M β) (g : α → R β) : Prop :=
+  ∀ (s : St) (x : α), WF s.cells → Ext s0 s → Post QEq s (f x s) (g x)
+
+theorem sim_mapL {s0 : St} {f : Value → M Value} {g : Value → R Value} (hf : SimFn s0 f g) :
+    ∀ (xs : VL) (e : Option Err) (s : St), WF s.cells → Ext s0 s → Post QEq s (mapLS f xs e s) (mapL g xs e)
+  | [], e, s, hwf, _ => post_pure hwf rfl
+  | x :: xs, e, s, hwf, hle => by
+    unfold EvalStore.mapLS Eval.mapL
+    refine post_bind_eq (post_capture (hf s x hwf hle)) (fun s1 r hwf1 hle1 => ?_)
+    cases r with
+    | error er => exact post_pure hwf1 rfl
+    | ok v =>
+      exact post_bind_eq (sim_mapL hf xs e s1 hwf1 (hle.trans hle1)) (fun s2 r hwf2 _ => post_pure hwf2 rfl)
+
+theorem sim_filterL {s0 : St} {f : Value → M Bool} {g : Value → R Bool} (hf : SimFn s0 f g) :
+    ∀ (xs : VL) (e : Option Err) (s : St), WF s.cells → Ext s0 s → Post QEq s (filterLS f xs e s) (filterL g xs e)
+  | [], e, s, hwf, _ => post_pure hwf rfl
+  | x :: xs, e, s, hwf, hle => by
+    unfold EvalStore.filterLS Eval.filterL
+    refine post_bind_eq (post_capture (hf s x hwf hle)) (fun s1 r hwf1 hle1 => ?_)
+    cases r with
+    | error er => exact post_pure hwf1 rfl
+    | ok v =>
+      exact post_bind_eq (sim_filterL hf xs e s1 hwf1 (hle.trans hle1)) (fun s2 r hwf2 _ => post_pure hwf2 rfl)
+
+theorem sim_flatMapL {s0 : St} {f : Value → M (VL × Option Err)} {g : Value → R (VL × Option Err)} (hf : SimFn s0 f g) :
+    ∀ (xs : VL) (e : Option Err) (s : St), WF s.cells → Ext s0 s → Post QEq s (flatMapLS f xs e s) (flatMapL g xs e)
+  | [], e, s, hwf, _ => post_pure hwf rfl
+  | x :: xs, e, s, hwf, hle => by
+    unfold EvalStore.flatMapLS Eval.flatMapL
+    refine post_bind_eq (post_capture (hf s x hwf hle)) (fun s1 r hwf1 hle1 => ?_)
+    cases r with
+    | error er => exact post_pure hwf1 rfl
+    | ok v =>
+      obtain ⟨vs, t⟩ := v
+      cases t with
+      | some er => exact post_pure hwf1 rfl
+      | none =>
+        exact post_bind_eq (sim_flatMapL hf xs e s1 hwf1 (hle.trans hle1)) (fun s2 r hwf2 _ => post_pure hwf2 rfl)
+
+theorem sim_takeWhileL {s0 : St} {f : Value → M Bool} {g : Value → R Bool} (hf : SimFn s0 f g) :
+    ∀ (xs : VL) (e : Option Err) (s : St), WF s.cells → Ext s0 s → Post QEq s (takeWhileLS f xs e s) (takeWhileL g xs e)
+  | [], e, s, hwf, _ => post_pure hwf rfl
+  | x :: xs, e, s, hwf, hle => by
+    unfold EvalStore.takeWhileLS Eval.takeWhileL
+    refine post_bind_eq (post_capture (hf s x hwf hle)) (fun s1 r hwf1 hle1 => ?_)
+    cases r with
+    | error er => exact post_pure hwf1 rfl
+    | ok v =>
+      cases v with
+      | false => exact post_pure hwf1 rfl
+      | true =>
+        exact post_bind_eq (sim_takeWhileL hf xs e s1 hwf1 (hle.trans hle1)) (fun s2 r hwf2 _ => post_pure hwf2 rfl)
+
+theorem sim_dropWhileL {s0 : St} {f : Value → M Bool} {g : Value → R Bool} (hf : SimFn s0 f g) :
+    ∀ (xs : VL) (e : Option Err) (s : St), WF s.cells → Ext s0 s → Post QEq s (dropWhileLS f xs e s) (dropWhileL g xs e)
+  | [], e, s, hwf, _ => post_pure hwf rfl
+  | x :: xs, e, s, hwf, hle => by
+    unfold EvalStore.dropWhileLS Eval.dropWhileL
+    refine post_bind_eq (post_capture (hf s x hwf hle)) (fun s1 r hwf1 hle1 => ?_)
+    cases r with
+    | error er => exact post_pure hwf1 rfl
+    | ok v =>
+      cases v with
+      | false => exact post_pure hwf1 rfl
+      | true => exact sim_dropWhileL hf xs e s1 hwf1 (hle.trans hle1)
+
+theorem sim_findL {s0 : St} {f : Value → M Bool} {g : Value → R Bool} (hf : SimFn s0 f g) :
+    ∀ (xs : VL) (e : Option Err) (i : Nat) (s : St), WF s.cells → Ext s0 s → Post QEq s (findLS f i xs e s) (findL g i xs e)
+  | [], none, _, s, hwf, _ => post_pure hwf rfl
+  | [], some e, _, s, hwf, _ => post_fail e hwf
+  | x :: xs, e, i, s, hwf, hle => by
+    unfold EvalStore.findLS Eval.findL
+    refine post_bind_eq (hf s x hwf hle) (fun s1 b hwf1 hle1 => ?_)
+    cases b with
+    | true => exact post_pure hwf1 rfl
+    | false => exact sim_findL hf xs e (i + 1) s1 hwf1 (hle.trans hle1)
+
+theorem sim_foldL {s0 : St} {f : Value → Value → M Value} {g : Value → Value → R Value}
+    (hf : ∀ a, SimFn s0 (f a) (g a)) :
+    ∀ (xs : VL) (e : Option Err) (acc : Value) (s : St), WF s.cells → Ext s0 s →
+      Post QEq s (foldLS f acc xs e s) (foldL g acc xs e)
+  | [], none, _, s, hwf, _ => post_pure hwf rfl
+  | [], some e, _, s, hwf, _ => post_fail e hwf
+  | x :: xs, e, acc, s, hwf, hle => by
+    unfold EvalStore.foldLS Eval.foldL
+    exact post_bind_eq (hf acc s x hwf hle) (fun s1 a hwf1 hle1 => sim_foldL hf xs e a s1 hwf1 (hle.trans hle1))
+
+theorem sim_toDictL {s0 : St} {kf vf : Value → M Value} {kg vg : Value → R Value}
+    (hk : SimFn s0 kf kg) (hv : SimFn s0 vf vg) :
+    ∀ (xs : VL) (e : Option Err) (acc : KV) (s : St), WF s.cells → Ext s0 s →
+      Post QEq s (toDictLS kf vf acc xs e s) (toDictL kg vg acc xs e)
+  | [], none, _, s, hwf, _ => post_pure hwf rfl
+  | [], some e, _, s, hwf, _ => post_fail e hwf
+  | x :: xs, e, acc, s, hwf, hle => by
+    unfold EvalStore.toDictLS Eval.toDictL
+    refine post_bind_eq (hk s x hwf hle) (fun s1 k hwf1 hle1 => ?_)
+    refine post_bind_eq (hv s1 x hwf1 (hle.trans hle1)) (fun s2 v hwf2 hle2 => ?_)
+    split
+    · exact sim_toDictL hk hv xs e _ s2 hwf2 ((hle.trans hle1).trans hle2)
+    · exact post_fail _ hwf2
+
+theorem sim_keysL {s0 : St} {f : Value → M Value} {g : Value → R Value} (hf : SimFn s0 f g) :
+    ∀ (xs : VL) (s : St), WF s.cells → Ext s0 s → Post QEq s (keysLS f xs s) (keysL g xs)
+  | [], s, hwf, _ => post_pure hwf rfl
+  | x :: xs, s, hwf, hle => by
+    unfold EvalStore.keysLS Eval.keysL
+    refine post_bind_eq (post_capture (hf s x hwf hle)) (fun s1 k hwf1 hle1 => ?_)
+    exact post_bind_eq (sim_keysL hf xs s1 hwf1 (hle.trans hle1)) (fun s2 r hwf2 _ => post_pure hwf2 rfl)
+
 end Yaql.Props.EvalStore
